@@ -218,6 +218,22 @@ func (v *PacketDslVisitorImpl) VisitFieldDefinitionWithAttribute(ctx *gen.FieldD
 	f := fd.(*model.Field)
 
 	for _, fieldAttr := range ctx.AllFieldAttribute() {
+		if fieldAttr.CalculatedFromAttribute() != nil || fieldAttr.LengthOfAttribute() != nil {
+			// both attributes take over the type of the field; an object field has none here
+			if of, ok := f.Attr.(*model.ObjectFieldAttribute); f.Attr == nil || (ok && !of.IsIner) {
+				attrName := "@calculatedFrom"
+				if fieldAttr.LengthOfAttribute() != nil {
+					attrName = "@lengthOf"
+				}
+				v.BinModel.AddSyntaxError(&model.SyntaxError{
+					Line:            ctx.GetStart().GetLine(),
+					Column:          ctx.GetStart().GetTokenSource().GetCharPositionInLine(),
+					Msg:             "Attribute " + attrName + " is not allowed on object field " + f.Name,
+					OffendingSymbol: nil,
+				})
+				continue
+			}
+		}
 		switch {
 		case fieldAttr.CalculatedFromAttribute() != nil:
 			f.Attr = &model.CheckSumFieldAttribute{Type: f.GetType(), CheckSumType: fieldAttr.CalculatedFromAttribute().GetFrom().GetText()}
